@@ -1,4 +1,4 @@
-import AnyDB.Lemmas.LayoutAcc
+import AnyDB.Lemmas.LayoutAlign
 
 /-!
 # C02 — extents never overlap, for EVERY history (whole-state invariant of the rawdb model)
@@ -27,8 +27,11 @@ reservation becomes the region) or adds one extent exactly on top of everything 
 relocation at `Layout::len()`, the last region growing in place) — so after every such history EVERY byte below
 `Layout::len()` belongs to EXACTLY one region, reservation, free extent or pending free extent.
 What is missing for the full statement: `reopen` (`Layout::from` over the metadata file — needs the invariant that
-the metadata file agrees with the slots), page alignment and "inside the data file" as whole-history invariants
-(checked by the harness's extent checker on the real crate after every request).
+the metadata file agrees with the slots) and "inside the data file" as a whole-history invariant (checked by the
+harness's extent checker on the real crate after every request).
+`C02_history_aligned` (`Lemmas/LayoutAlign.lean`): every extent starts on a page boundary and is a whole number of pages
+long — creation takes one page from an aligned hole or at the aligned `Layout::len()`, reservations double, holes are
+split at aligned offsets and merged into aligned sums.
 -/
 namespace AnyDB.C02r
 open AnyDB Conc Db
@@ -138,6 +141,32 @@ theorem C02_history_accounted (ops : List Op) (hr : NoReopen ops) (hp : NoPanic 
   · omega
   · have := ha x ((run Db.init ops).layoutLen - 1) (by omega) hl
     omega
+
+
+theorem al_run (s : Db) (ops : List Op) (h : LInv s) (ha : Al s) (hr : NoReopen ops) (hp : NoPanic s ops) : Al (run s ops) := by
+  induction ops generalizing s with
+  | nil => exact ha
+  | cons op t ih =>
+    have hno := hr op (List.mem_cons_self ..)
+    have hstep := linv_step s op h hno
+    have hal := al_step s op h ha hno
+    have : run s (op :: t) = run (step s op).1 t := rfl
+    rw [this]
+    rcases hstep with hpn | hl
+    · exact absurd hpn hp.1
+    · rcases hal with hpn | hac
+      · exact absurd hpn hp.1
+      · exact ih _ hl hac (fun o ho => hr o (List.mem_cons_of_mem _ ho)) hp.2
+
+/-- C02, alignment (partial: no `reopen`, no panicking operation), for every history: every extent — region reservation,
+relocation target, free extent, pending free extent — starts on a page boundary and is a whole number of pages long,
+and so is `Layout::len()` -/
+theorem C02_history_aligned (ops : List Op) (hr : NoReopen ops) (hp : NoPanic Db.init ops) :
+    (∀ e ∈ claimedDb (run Db.init ops), e.1 % Gen.PAGE_SIZE = 0 ∧ e.2 % Gen.PAGE_SIZE = 0) ∧
+    (run Db.init ops).layoutLen % Gen.PAGE_SIZE = 0 := by
+  have h := linv_run Db.init ops linv_init hr hp
+  have ha := al_run Db.init ops linv_init al_init hr hp
+  exact ⟨ha, layoutLen_aligned _ h ha⟩
 
 -- non-vacuity: a history with creation, removal, flush and reuse of the freed extent
 example : NoReopen [Op.create [97], .create [98], .remove [98], .flush, .create [99]] ∧
